@@ -8,7 +8,8 @@ CONSTANTS
   MaxOps = 0
   CodeIds = {}
   Blocks = FALSE
-  Ops = {"setbalance", "setvalue", "deletevalue", "initcontract", "touch", "setblock", "deploy", "accept", "snapshot", "reset", "clearcache", "flush", "reload"}
+  MaxDep = 0
+  Ops = {"setbalance", "setvalue", "deletevalue", "initcontract", "touch", "setblock", "deploy", "accept", "snapshot", "reset", "clearcache", "flush", "reload", "adddeposit", "withdraw", "withdrawall", "paysteps"}
   SnapSlots = {1}
   HistOn = FALSE
 INVARIANTS ReadsLogical SnapshotsCanonical FlushCanonical
